@@ -315,6 +315,60 @@ func c20Templates() []*c20Tpl {
 			t.line = map[string]int{"top": 2, "in-if-body": 4, "in-loop-body": 7, "at-end": 9}[pos.name]
 		})
 	}
+	// the same with script names that contain digits or letters outside ASCII
+	// (a generated label is recognised by its exact spelling, whatever
+	// characters the script's name is made of)
+	for _, sn := range []string{"Script1", "Route101_Boy1", "Pok\u00e9Center", "S_1"} {
+		sn := sn
+		// pin "": the label / text name is symbolic; otherwise it is pinned to
+		// one of the spellings at which the verdict flips
+		for _, pin := range []string{"", "_1", "_2", "_9"} {
+			pin := pin
+			add("label-equals-own-chunk-label/"+sn+"/pin="+pin, func(t *c20Tpl) {
+				l := t.atoms.New(ClsIdent, "lbl", "")
+				if pin != "" {
+					v := sn + pin
+					l.Fixed = &v
+				}
+				f := t.atoms.New(ClsIdent, "flag", "")
+				c := t.atoms.New(ClsPlainCmd, "cmd", "")
+				t.src = func() string {
+					return lines("script "+sn+" {", "  if (flag("+ph(f)+")) {", "    "+ph(c), "  }", "  "+ph(c), "  "+ph(l)+":", "  "+ph(c), "}")
+				}
+				t.badV = func(x *OracleCtx, v string) interp.Value {
+					if v == "opt" {
+						return anyOf(l, sn, sn+"_1", sn+"_2")
+					}
+					return anyOf(l, sn, sn+"_1", sn+"_2", sn+"_3")
+				}
+				t.maybe = func(x *OracleCtx, v string) interp.Value {
+					if v == "opt" {
+						return anyOf(l, sn+"_3")
+					}
+					return false
+				}
+				t.line = 6
+			})
+		}
+		for _, pin := range []string{"", "_Text_0", "_Text_1", "_Text_2"} {
+			pin := pin
+			add("text-name-equals-generated/"+sn+"/pin="+pin, func(t *c20Tpl) {
+				tn := t.atoms.New(ClsIdent, "text", "")
+				if pin != "" {
+					v := sn + pin
+					tn.Fixed = &v
+				}
+				c := t.atoms.New(ClsPlainCmd, "cmd", "")
+				t.src = func() string {
+					return lines("script "+sn+" {", "  "+ph(c)+"(\"one$\")", "  "+ph(c)+"(\"two$\")", "}", "text "+ph(tn)+" {", "  \"abc$\"", "}")
+				}
+				t.bad = func(x *OracleCtx) interp.Value {
+					return interp.SymBool{T: interp.Or(interp.BoolTerm(interp.StrEq(tn.Val, sn+"_Text_0")), interp.BoolTerm(interp.StrEq(tn.Val, sn+"_Text_1")))}
+				}
+				t.line = 5
+			})
+		}
+	}
 	add("label-equals-text-label", func(t *c20Tpl) {
 		l := t.atoms.New(ClsIdent, "lbl", "")
 		tn := t.atoms.New(ClsUserName, "text", "")
